@@ -4,6 +4,7 @@ import DaskModel.Model.Callbacks
 import DaskModel.Model.Diagnostics
 import DaskModel.Model.SchedWarm
 import DaskModel.Model.CacheSession
+import DaskModel.Model.CacheCost
 open Dask
 open Dask.Sched
 
@@ -319,6 +320,24 @@ def hCProf : Handler := handler fun args =>
     pure (.list [.list (rs.map (fun r => SExp.ofNats [r.1, r.2.1, r.2.2])), SExp.ofNats (sortNat (p.live.map (·.1)))])
   | _ => none
 
+/-- `(cache_cost ((pre k t) | (post k t (deps…)) | (finish))…)` ↦ `(ok ((key duration)…) (keys of durations) (keys of starttimes))`
+in the order of the `cache.put` calls | `(raised)`: the cost bookkeeping of `Cache` -/
+def hCacheCost : Handler := handler fun args =>
+  match args with
+  | [evs] => do
+    let items ← evs.toList?
+    let log ← items.mapM (fun it => match it with
+      | .list [.sym "pre", k, t] => do pure (Dask.Diag.CEv.pre (← k.toNat?) (← t.toNat?))
+      | .list [.sym "post", k, t, deps] => do pure (Dask.Diag.CEv.post (← k.toNat?) (← t.toNat?) (← deps.toNats?))
+      | .list [.sym "finish"] => some Dask.Diag.CEv.finish
+      | _ => none)
+    match Dask.Diag.costRun {} log with
+    | .ok s =>
+      pure (.list [.sym "ok", .list (s.puts.map (fun r => SExp.ofNats [r.1, r.2])),
+                   SExp.ofNats (sortNat (s.durs.map (·.1))), SExp.ofNats (sortNat (s.starts.map (·.1)))])
+    | .error _ => pure (.list [.sym "raised"])
+  | _ => none
+
 /-- `(cache_run nodes results prio nw cs choices store)`: the run the scheduler makes after `Cache._start` patched the
 graph with `store`; ↦ `(outcome result store')` where `store'` is what `Cache._posttask` leaves (no eviction) -/
 def hCacheRun : Handler := handler fun args =>
@@ -393,7 +412,7 @@ end SchedDrv
 def table : List (String × Handler) :=
   [("run", SchedDrv.hRun), ("start_state", SchedDrv.hStart), ("finish_task", SchedDrv.hFinish),
    ("release_data", SchedDrv.hRelease), ("denote", SchedDrv.hDenote), ("nested_get", SchedDrv.hNested),
-   ("cbrun", SchedDrv.hCbRun), ("cbexec", SchedDrv.hCbExec), ("prof", SchedDrv.hProf), ("cprof", SchedDrv.hCProf), ("cache_run", SchedDrv.hCacheRun), ("cache_session", SchedDrv.hCacheSession),
+   ("cbrun", SchedDrv.hCbRun), ("cbexec", SchedDrv.hCbExec), ("prof", SchedDrv.hProf), ("cprof", SchedDrv.hCProf), ("cache_run", SchedDrv.hCacheRun), ("cache_session", SchedDrv.hCacheSession), ("cache_cost", SchedDrv.hCacheCost),
    ("warm_plan", SchedDrv.hWarmPlan)]
 
 def main : IO Unit := runDriver table
